@@ -52,7 +52,7 @@ struct SimMutexObj { int owner; uint32_t vc[MAXT]; uint64_t acquisitions, conten
 struct Race { uintptr_t addr; int t1, t2; bool w1, w2; };
 
 struct Sim {
-    bool active; int n; Thr t[MAXT]; volatile int current;
+    bool active; int n; Thr t[MAXT]; volatile int current; bool refusedGotBlock;
     Rng rng; unsigned preemptNum, preemptDen; bool biasLock; int afterLock;
     uint64_t steps, budget; bool noPreempt; uint64_t changePoints[4]; int nChangePoints;      // PCT-like: a handful of forced preemptions at seeded steps, none elsewhere
     Vec<int64_t> recorded;            // (step, to) pairs
@@ -312,7 +312,21 @@ static void runScript(int me) {
         S.order.u64((uint64_t)me * 1000 + i);
         Held& H = T.slots[(size_t)o.a % N_SLOTS];
         switch (o.kind) {
-        case X_ALLOC: if (!H.p) { H.form = (int)(o.b % 6); H.size = (size_t)o.c; H.p = acquire(H.form, H.size, 100 + me); if (H.p) memset(H.p, 0x40 + me, H.size); } break;
+        case X_ALLOC: if (!H.p) {
+            H.form = (int)(o.b % 6);
+            if (o.c < 0) {      // a request that cannot be satisfied (size + bookkeeping overflows): NULL or bad_alloc, nothing held, the lock released once
+                size_t huge = SIZE_MAX - (size_t)(-1 - o.c); void* q = 0; bool threw = false;
+#if CPPUTEST_HAVE_EXCEPTIONS
+                try { q = acquire(H.form, huge, 100 + me); } catch (std::bad_alloc&) { threw = true; }
+#else
+                q = acquire(H.form, huge, 100 + me);
+#endif
+                fired("refused_request_in_thread");
+                if (q) { S.refusedGotBlock = true; }
+                (void)threw;
+                break;
+            }
+            H.size = (size_t)o.c; H.p = acquire(H.form, H.size, 100 + me); if (H.p) memset(H.p, 0x40 + me, H.size); } break;
         case X_FREE: if (H.p) { Held h = H; H.p = 0; release(h); } break;
         case X_REALLOC: if (H.p && H.form >= 4) { H.p = cpputest_realloc_location(H.p, (size_t)o.c, "thr.c", 7); H.size = (size_t)o.c; } break;
         case X_SEND: if (H.p) { int to = (int)(o.b % S.n); if (to == me || !S.t[to].script) break; S.t[to].mailbox.push_back(H); vcJoin(S.t[to].mailVc, T.vc); T.vc[me]++; H.p = 0; probe("block_handed_to_other_thread"); } break;
@@ -416,7 +430,7 @@ struct Engine : public vf::Engine {
             int nOps = (int)w.small(misuse ? 2 : 5, misuse ? 30 : 200);
             for (int i = 0; i < nOps; i++) {
                 Op o; unsigned x = (unsigned)w.below(100);
-                if (x < 45) { o.kind = X_ALLOC; o.a = (int64_t)w.below(N_SLOTS); o.b = (int64_t)w.below(6); o.c = w.small(1, 120); }
+                if (x < 45) { o.kind = X_ALLOC; o.a = (int64_t)w.below(N_SLOTS); o.b = (int64_t)w.below(6); o.c = w.small(1, 120); if (w.chance(1, 30)) o.c = -1 - (int64_t)w.below(60); }
                 else if (x < 80) { o.kind = X_FREE; o.a = (int64_t)w.below(N_SLOTS); }
                 else if (x < 86) { o.kind = X_REALLOC; o.a = (int64_t)w.below(N_SLOTS); o.c = w.small(1, 200); }
                 else if (x < 92 && !misuse) { o.kind = X_SEND; o.a = (int64_t)w.below(N_SLOTS); o.b = (int64_t)w.below(16); }
@@ -449,7 +463,7 @@ struct Engine : public vf::Engine {
         S.n = (int)scripts.size() + 1; S.rng.reseed(mix64(d.seed, 4242)); S.preemptNum = 1; S.preemptDen = (unsigned)d.pi("preempt_den", 8); S.biasLock = d.pi("bias_lock") != 0;
         S.nChangePoints = (int)d.pi("few_points"); if (S.nChangePoints > 4) S.nChangePoints = 4; for (int k = 0; k < S.nChangePoints; k++) S.changePoints[k] = 1 + S.rng.below((uint64_t)d.pi("few_span", 4000));
         S.steps = 0; S.budget = 4000000; S.noPreempt = false; S.recorded.clear(); S.replay = d.schedule.empty() ? 0 : &d.schedule; S.replayPos = 0; S.switches = 0; S.order = Hash();
-        S.deadlock = S.selfDeadlock = S.unlockByOther = S.budgetExceeded = false; S.deadlockDetail.clear(); S.races.clear(); S.accesses = 0; S.reports = 0; S.firstReport.clear();
+        S.deadlock = S.selfDeadlock = S.unlockByOther = S.budgetExceeded = false; S.refusedGotBlock = false; S.deadlockDetail.clear(); S.races.clear(); S.accesses = 0; S.reports = 0; S.firstReport.clear();
         shadowGen++;
         for (int i = 0; i < MAXT; i++) { sem_destroy(&S.t[i].sem); sem_init(&S.t[i].sem, 0, 0); }      // no stale wake-up can survive from an earlier run
         for (int i = 0; i < S.n; i++) { Thr& T = S.t[i]; T.id = i; T.started = true; T.finished = false; T.blocked = false; T.waitingFor = 0; memset(T.vc, 0, sizeof T.vc); T.vc[i] = 1; memset(T.slots, 0, sizeof T.slots); T.mailbox.clear(); memset(T.mailVc, 0, sizeof T.mailVc); T.script = i == 0 ? 0 : scripts[(size_t)i - 1]; }
@@ -499,6 +513,7 @@ struct Engine : public vf::Engine {
         if (S.selfDeadlock) r.fail("C10", "lock_left_held", sg("what", "self deadlock"), S.deadlockDetail);
         else if (S.deadlock) r.fail("C10", "deadlock", sg("what", "no runnable thread"), S.deadlockDetail);
         if (S.unlockByOther) r.fail("C10", "unlock_by_non_owner", "the detector lock was released by a thread that does not hold it");
+        if (S.refusedGotBlock) r.fail("C10", "refused_request", "a request whose size overflows with the bookkeeping returned a block");
         if (S.budgetExceeded) r.fail("C10", "step_budget", sfmt("run needed more than %llu scheduling steps", (unsigned long long)S.budget));
         if (!misuse) {
             if (S.reports) r.fail("C10", "misuse_report_in_clean_workload", sg("first", S.firstReport.c_str()), sfmt("%llu misuse reports although every block released was outstanding; first: %s", (unsigned long long)S.reports, S.firstReport.c_str()));
